@@ -21,6 +21,7 @@ TARGETS = {
     'le': [],
     'be': ['--target=powerpc64-unknown-linux-gnu', '-nostdlibinc', '-isystem', STUBS],
     'be32': ['--target=mips-unknown-linux-gnu', '-nostdlibinc', '-isystem', STUBS],
+    'le32': ['--target=i386-unknown-linux-gnu', '-nostdlibinc', '-isystem', STUBS],
 }
 
 
